@@ -3,6 +3,7 @@ from vsym.runner import Ob
 from .common import *
 
 PROPERTY = 'C03'
+DEBUG_LOG = ['rt1/blocked/class', 'rt1/unblocked/class', 'rt1/blocked/func']      # obligations that are also explored with debug logging switched on
 PYTHON_O = ['rt1/blocked/class', 'rt1/unblocked/func', 'rt1/unblocked/class']      # obligations that are also explored with the modules compiled as under python -O
 ASSUMPTIONS = [
     'file object = RopeFile (io.BytesIO semantics); io.BytesIO inside cardutil is that class',
